@@ -129,3 +129,205 @@ Proof.
   destruct r as [data|]; unfold completed_msgs in *; cbn [app filter p_complete map completed_outs p_msg set_body m_id m_body];
     now rewrite IH2.
 Qed.
+
+(* ================= reads spread over time ================= *)
+(* two transfer tables with the same ids in the same order and the same slot contents (time
+   stamps and first headers may differ): completePack cannot tell them apart *)
+Definition same_slots (s s' : pstate) : Prop :=
+  Forall2 (fun a b => fst a = fst b /\ x_slots (snd a) = x_slots (snd b)) s s'.
+
+Lemma ss_refl s : same_slots s s.
+Proof. induction s; constructor; auto. Qed.
+
+Lemma ss_trans a b c : same_slots a b -> same_slots b c -> same_slots a c.
+Proof.
+  intros H. revert c. induction H as [|x y a b [H1 H2] H IH]; intros c Hc; inversion Hc as [|y' z b' c' [G1 G2] G]; subst; constructor.
+  split; congruence. now apply IH.
+Qed.
+
+Lemma ss_find id s s' : same_slots s s' ->
+  match find id s, find id s' with
+  | Some x, Some x' => x_slots x = x_slots x'
+  | None, None => True
+  | _, _ => False
+  end.
+Proof.
+  intros H. induction H as [|[k v] [k' v'] s s' [H1 H2] H IH]; cbn [find]; auto.
+  cbn [fst snd] in *. subst k'. destruct (k =? id); auto.
+Qed.
+
+Lemma ss_remove id s s' : same_slots s s' -> same_slots (remove id s) (remove id s').
+Proof.
+  intros H. induction H as [|[k v] [k' v'] s s' [H1 H2] H IH]; cbn [remove]. constructor.
+  cbn [fst snd] in *. subst k'. destruct (k =? id); auto. constructor; auto.
+Qed.
+
+Lemma ss_put id v v' s s' : x_slots v = x_slots v' -> same_slots s s' -> same_slots (put id v s) (put id v' s').
+Proof. intros Hv H. unfold put. constructor; auto. now apply ss_remove. Qed.
+
+Lemma ss_complete_pack now now' s s' m : same_slots s s' ->
+  same_slots (fst (complete_pack now s m)) (fst (complete_pack now' s' m)) /\
+  snd (complete_pack now s m) = snd (complete_pack now' s' m).
+Proof.
+  intros H. unfold complete_pack. destruct (m_sum m =? 0); auto.
+  set (s1 := if m_no m =? 1 then put (m_id m) (new_xfer now m) s else s).
+  set (s1' := if m_no m =? 1 then put (m_id m) (new_xfer now' m) s' else s').
+  assert (same_slots s1 s1') as H1.
+  { unfold s1, s1'. destruct (m_no m =? 1); auto. apply ss_put; auto. }
+  pose proof (ss_find (m_id m) s1 s1' H1) as F.
+  destruct (find (m_id m) s1) as [x|]; destruct (find (m_id m) s1') as [x'|]; try contradiction; auto.
+  rewrite <- F. destruct ((m_no m <? 1) || (len (x_slots x) <? m_no m)); auto.
+  destruct (received _ =? m_sum m); cbn [fst snd].
+  - split; auto. now apply ss_remove.
+  - split; auto. apply ss_put; auto.
+Qed.
+
+Lemma ss_cp_loop now now' ms : forall s s', same_slots s s' ->
+  same_slots (fst (cp_loop now s ms)) (fst (cp_loop now' s' ms)) /\
+  snd (cp_loop now s ms) = snd (cp_loop now' s' ms).
+Proof.
+  induction ms as [|[raw m] t IH]; intros s s' H; cbn [cp_loop]; auto.
+  destruct (ss_complete_pack now now' s s' m H) as [H1 H2].
+  destruct (complete_pack now s m) as [s1 r]. destruct (complete_pack now' s' m) as [s1' r']. cbn [fst snd] in *. subst r'.
+  destruct (IH s1 s1' H1) as [H3 H4].
+  destruct (cp_loop now s1 t) as [s2 rest]. destruct (cp_loop now' s1' t) as [s2' rest']. cbn [fst snd] in *.
+  split; auto. now rewrite H4.
+Qed.
+
+Lemma ss_supplementary now s : same_slots s (fst (supplementary now s)).
+Proof.
+  induction s as [|[k v] s IH]; cbn [supplementary]. constructor.
+  destruct (supplementary now s) as [t' rs]. cbn [fst] in IH.
+  destruct (x_update v + 5000 <? now); cbn [fst]; constructor; auto.
+Qed.
+
+Lemma parse_timed_frames now st d fs1 r1 : Forall vframe fs1 -> partial r1 ->
+  ps_hist st ++ d = concat fs1 ++ r1 ->
+  delete_timeout now (fst (cp_loop now (ps_x st) (map decode_ok fs1))) = fst (cp_loop now (ps_x st) (map decode_ok fs1)) ->
+  exists rrs, parse now st d =
+    ({| ps_hist := r1; ps_x := fst (housekeeping now (fst (cp_loop now (ps_x st) (map decode_ok fs1)))) |},
+     snd (cp_loop now (ps_x st) (map decode_ok fs1)) ++ map rereq_pmsg rrs, None) /\
+    same_slots (fst (cp_loop now (ps_x st) (map decode_ok fs1)))
+               (fst (housekeeping now (fst (cp_loop now (ps_x st) (map decode_ok fs1))))).
+Proof.
+  intros Hfs Hr H. unfold parse. rewrite (unpack_frames _ _ _ _ Hfs Hr H). cbn [u_msgs u_hist u_err].
+  destruct (cp_loop now (ps_x st) (map decode_ok fs1)) as [s1 outs]. cbn [fst snd]. intros Hd.
+  destruct (housekeeping now s1) as [s2 rrs] eqn:Hk. exists rrs. split; auto. cbn [fst].
+  unfold housekeeping in Hk. destruct s1 as [|kv s1]. injection Hk as <- <-. constructor.
+  rewrite Hd in Hk. replace s2 with (fst (supplementary now (kv :: s1))) by now rewrite Hk. apply ss_supplementary.
+Qed.
+
+Lemma feed_timed_frames reads : forall st sref fs r,
+  Forall vframe fs -> partial (ps_hist st) -> partial r -> same_slots (ps_x st) sref -> no_expiry st reads ->
+  ps_hist st ++ concat (map snd reads) = concat fs ++ r ->
+  concat (owns_timed st reads) = snd (cp_loop 0 sref (map decode_ok fs)) /\
+  Forall (fun x => snd x = None) (feed_timed st reads) /\
+  Forall2 (fun x own => exists rrs, snd (fst x) = own ++ map rereq_pmsg rrs) (feed_timed st reads) (owns_timed st reads).
+Proof.
+  induction reads as [|[now c] cs IH]; intros st sref fs r Hfs Hh Hr Hs Hn H.
+  - cbn [map concat] in H. rewrite app_nil_r in H.
+    assert (fs = []) as -> by (eapply partial_frames_nil; eauto; now rewrite <- H).
+    cbn [owns_timed feed_timed concat map cp_loop snd]. auto.
+  - cbn [map concat snd] in H. rewrite app_assoc in H.
+    destruct (split_stream fs (ps_hist st ++ c) (concat (map snd cs)) r Hfs Hr H) as (fs1 & fs2 & r1 & -> & Hp & Hr1 & Hq & _).
+    apply Forall_app in Hfs. destruct Hfs as [Hfs1 Hfs2].
+    cbn [no_expiry] in Hn. rewrite (unpack_frames _ _ _ _ Hfs1 Hr1 Hp) in Hn. cbn [u_msgs] in Hn. destruct Hn as [Hd Hn].
+    destruct (parse_timed_frames now st c fs1 r1 Hfs1 Hr1 Hp Hd) as (rrs & Hparse & Hss).
+    cbn [owns_timed feed_timed]. rewrite (unpack_frames _ _ _ _ Hfs1 Hr1 Hp). cbn [u_msgs].
+    rewrite Hparse in *. cbn [fst snd] in *.
+    destruct (ss_cp_loop now 0 (map decode_ok fs1) (ps_x st) sref Hs) as [Hs1 Ho1].
+    set (st1 := {| ps_hist := r1; ps_x := fst (housekeeping now (fst (cp_loop now (ps_x st) (map decode_ok fs1)))) |}) in *.
+    destruct (IH st1 (fst (cp_loop 0 sref (map decode_ok fs1))) fs2 r Hfs2 Hr1 Hr) as (A & B & C); auto.
+    { cbn [st1 ps_x]. eapply ss_trans; [|exact Hs1].
+      (* same_slots is symmetric on this pair: go through s1 *)
+      clear -Hss. set (a := fst (cp_loop now (ps_x st) (map decode_ok fs1))) in *.
+      induction Hss as [|x y l l' [E1 E2] Hl IHl]; constructor; auto. }
+    split; [|split].
+    + cbn [concat]. rewrite A, map_app, cp_loop_app. cbn [snd]. now rewrite Ho1.
+    + constructor; auto.
+    + constructor; auto. exists rrs. reflexivity.
+Qed.
+
+Theorem segmentation_timed : forall fs reads, Forall vframe fs -> concat (map snd reads) = concat fs ->
+  no_expiry pst0 reads ->
+  concat (owns_timed pst0 reads) = snd (cp_loop 0 [] (map decode_ok fs)) /\
+  Forall (fun x => snd x = None) (feed_timed pst0 reads) /\
+  Forall2 (fun x own => exists rrs, snd (fst x) = own ++ map rereq_pmsg rrs) (feed_timed pst0 reads) (owns_timed pst0 reads).
+Proof.
+  intros fs reads Hfs H Hn.
+  apply (feed_timed_frames reads pst0 [] fs []); auto; try apply partial_nil. constructor.
+  cbn [pst0 ps_hist app]. now rewrite app_nil_r.
+Qed.
+
+(* a sufficient condition for no_expiry: the whole history lies within 60 s *)
+Definition created_after (t0 : N) (s : pstate) : Prop := Forall (fun kv => t0 <= x_create (snd kv)) s.
+
+Lemma ca_remove t0 id s : created_after t0 s -> created_after t0 (remove id s).
+Proof.
+  unfold created_after. induction s as [|[k v] s IH]; intros H; cbn [remove]; auto.
+  inversion H as [|x l Hx Hl]; subst. destruct (k =? id); auto.
+Qed.
+
+Lemma ca_find t0 id s x : created_after t0 s -> find id s = Some x -> t0 <= x_create x.
+Proof.
+  unfold created_after. induction s as [|[k v] s IH]; intros H F; cbn [find] in F. discriminate.
+  inversion H as [|y l Hy Hl]; subst. destruct (k =? id). injection F as <-. exact Hy. auto.
+Qed.
+
+Lemma ca_complete_pack t0 now s m : t0 <= now -> created_after t0 s -> created_after t0 (fst (complete_pack now s m)).
+Proof.
+  intros Hn H. unfold complete_pack. destruct (m_sum m =? 0); auto.
+  set (s1 := if m_no m =? 1 then put (m_id m) (new_xfer now m) s else s).
+  assert (created_after t0 s1) as H1.
+  { unfold s1. destruct (m_no m =? 1); auto. unfold put. constructor. exact Hn. now apply ca_remove. }
+  destruct (find (m_id m) s1) as [x|] eqn:F; auto.
+  destruct ((m_no m <? 1) || (len (x_slots x) <? m_no m)); auto.
+  destruct (received _ =? m_sum m); cbn [fst].
+  - now apply ca_remove.
+  - unfold put. constructor. cbn [snd x_create]. eapply ca_find; eauto. now apply ca_remove.
+Qed.
+
+Lemma ca_cp_loop t0 now ms : forall s, t0 <= now -> created_after t0 s -> created_after t0 (fst (cp_loop now s ms)).
+Proof.
+  induction ms as [|[raw m] t IH]; intros s Hn H; cbn [cp_loop]; auto.
+  pose proof (ca_complete_pack t0 now s m Hn H) as H1.
+  destruct (complete_pack now s m) as [s1 r]. cbn [fst] in H1.
+  specialize (IH s1 Hn H1). destruct (cp_loop now s1 t) as [s2 rest]. exact IH.
+Qed.
+
+Lemma ca_supplementary t0 now s : created_after t0 s -> created_after t0 (fst (supplementary now s)).
+Proof.
+  unfold created_after. induction s as [|[k v] s IH]; intros H; cbn [supplementary]. constructor.
+  inversion H as [|y l Hy Hl]; subst. specialize (IH Hl). destruct (supplementary now s) as [t' rs]. cbn [fst] in IH.
+  destruct (x_update v + 5000 <? now); cbn [fst]; constructor; auto.
+Qed.
+
+Lemma ca_no_delete t0 now s : created_after t0 s -> now <= t0 + 60000 -> delete_timeout now s = s.
+Proof.
+  unfold created_after, delete_timeout. induction s as [|[k v] s IH]; intros H Hn; cbn [filter]; auto.
+  inversion H as [|y l Hy Hl]; subst. cbn [snd] in *.
+  replace (x_create v + 60000 <? now) with false by (symmetry; apply N.ltb_ge; lia). cbn [negb]. now rewrite IH.
+Qed.
+
+Lemma ca_housekeeping t0 now s : created_after t0 s -> now <= t0 + 60000 -> created_after t0 (fst (housekeeping now s)).
+Proof.
+  intros H Hn. unfold housekeeping. destruct s as [|kv s]; auto.
+  rewrite (ca_no_delete _ _ _ H Hn). now apply ca_supplementary.
+Qed.
+
+Lemma no_expiry_from t0 reads : forall st, created_after t0 (ps_x st) ->
+  Forall (fun r => t0 <= fst r /\ fst r <= t0 + 60000) reads -> no_expiry st reads.
+Proof.
+  induction reads as [|[now d] t IH]; intros st H F; cbn [no_expiry]; auto.
+  inversion F as [|x l [Hx1 Hx2] Hl]; subst. cbn [fst] in *.
+  pose proof (ca_cp_loop t0 now (u_msgs (unpack (ps_hist st) d)) _ Hx1 H) as H1.
+  split. now apply (ca_no_delete t0).
+  apply IH; auto. unfold parse.
+  destruct (cp_loop now (ps_x st) (u_msgs (unpack (ps_hist st) d))) as [s1 outs]. cbn [fst] in H1.
+  pose proof (ca_housekeeping t0 now s1 H1 Hx2) as H2.
+  destruct (housekeeping now s1) as [s2 rrs]. cbn [fst ps_x] in *. exact H2.
+Qed.
+
+Theorem no_expiry_span : forall t0 reads,
+  Forall (fun r => t0 <= fst r /\ fst r <= t0 + 60000) reads -> no_expiry pst0 reads.
+Proof. intros t0 reads F. apply (no_expiry_from t0); auto. constructor. Qed.
